@@ -122,15 +122,15 @@ def apply_op(o, pool):
     if k == "bandpass":
         return a.bandpass(float(f[0]), float(f[max(1, nf // 2)])), None
     if k == "sel":
-        if "time" not in lead:
-            return None, None
+        if "time" not in lead or len(a.time.values) == 0:
+            return None, None                 # (an earlier drop / where may have left an empty object)
         return a.sel({"time": a.time.values[o["i"] % len(a.time.values)]}), None
     if k == "isel":
-        if not lead:
+        if not lead or a.dataset.sizes[lead[0]] == 0:
             return None, None
         return a.isel(**{lead[0]: o["i"] % a.dataset.sizes[lead[0]]}), None
     if k == "getitem":
-        if not lead:
+        if not lead or any(a.dataset.sizes[d] == 0 for d in lead):
             return None, None
         idx = tuple([o["i"] % a.dataset.sizes[d] for d in lead] + [slice(None)] * len(a.dims_spectral))
         return a[idx], None
